@@ -10,4 +10,16 @@ META = {
         "note": "Single client; the background flush goroutine is quiesced between steps (hook VerifImmutableCount) so each case is a function of its program; process-level semantics; the model (a Go map) and the interpreter are trusted.",
         "technique": "model-based property testing over generated operation programs (rapid), map oracle",
     },
+    "C02": {
+        "text": "Fault enumeration by search: generated write programs (all sync modes, small memtables, log volumes beyond the memtable budget) are run in a child process that is killed (os.Exit at a named hook site, n-th hit; no cleanup) at crash points chosen from the profile of that very program, over 1-3 crash/recover rounds on one directory; after each reopen Get of every key and a full scan must equal ONE prefix state S_p of the issued history with lower <= p <= acked+1 (lower = acked under synchronous logging and after clean close). The thorough tier additionally enumerates ALL crash points of small programs. A pass means no counter-example among the explored (program, crash point) pairs.",
+        "design_ref": "DESIGN.md section 5, C02",
+        "note": "Crash = process death: bytes handed to write(2) survive, user-space buffers do not; fsync/power loss/torn sectors are not modelled (torn tails are covered by C03/C10 truncation). Hook sites are the only stop points. Background flush quiesced between steps so hit counts are reproducible. Trusted: the map model, the child/ack protocol, tmpfs semantics.",
+        "technique": "crash-point enumeration in a child process (hook site x hit), prefix-state oracle over generated programs (rapid)",
+    },
+    "C03": {
+        "text": "Four generated sub-checks: (1) transaction-heavy programs killed at hits of wal.batch/storage.batch/tx.commit/wal.sync hook sites, prefix-state oracle (a strict subset of a transaction is not a prefix state); (2) the newest log is cut at byte offsets inside the last transaction's byte range and reopened (torn final write); (3) one writer committing tagged transactions over all K keys (engine Commit or KevoService.BatchWrite) against concurrent readers: ordered Get pairs must be tag-monotone and read-only transactions/scans must see one tag, under a generated yield plan at commit hook sites; (4) sequential bodies with repeated keys, put/delete mixes, commit/rollback while the caller reuses and scribbles over one key and one value buffer, map-model oracle also after reopen. Known finding D24 (torn batch partially replayed; log format) is reported and its fault class excluded by construction.",
+        "design_ref": "DESIGN.md section 5, C03",
+        "note": "Crash = process death at hook sites; torn write = truncation. Concurrent visibility is decided per recorded execution with perturbation, not over all schedules. A commit failure can only be provoked through inputs (no I/O fault injection). Trusted: models, hook placement.",
+        "technique": "crash/torn-write fault enumeration with prefix-state oracle; concurrent tag-monotonicity invariant; buffer-reuse model test (rapid)",
+    },
 }
